@@ -8,6 +8,15 @@ import numpy as np
 
 import common
 from common import Case, Issue, q, ql, line
+from thr_common import U53, FLBOUND_SLACK, fl_in_range, fl_bucket
+
+CI_KAPPA_BITS = 68  # the rational square roots handed to op `cibound` are accurate to 2^-70 (relative): kappa = 2^-68
+
+
+def _rsqrt(v: Fraction, bits: int = 70) -> Fraction:
+    """a rational within relative 2^-bits of sqrt(v), v > 0 (integer square root of a scaled numerator)"""
+    a, b = v.numerator, v.denominator
+    return Fraction(math.isqrt(a * b * 4 ** bits), b * 2 ** bits)
 
 ID = "C04"
 LEVEL = "proof"
@@ -23,7 +32,11 @@ TRUSTED_BASE = ["Lean 4.33 kernel", "axioms propext/Classical.choice/Quot.sound 
                 "hand-written model SA/Model/Metrics.lean tied to /repo by this correspondence run",
                 "scipy.stats.norm.isf and np.sqrt as oracles (isf antitone is a hypothesis of C04_ci_nested)",
                 "harness and driver parsing; tolerance 1e-9 on float-valued quantities"]
-ASSUMPTIONS = ["non-negative finite cells", "float sums of float-valued cells compared with tolerance"]
+ASSUMPTIONS = ["non-negative finite cells", "float sums of float-valued cells compared with tolerance",
+               "float rounding of the normal-approximation intervals: within FLBOUND_SLACK x ciEps (SA.ci_fl_error: standard model "
+               "|fl x - x| <= u|x|, u = 2^-53, one rounding per class total / quotient / 1-p / product / division / z*std / "
+               "p-+dist, np.sqrt an oracle rounded once) wherever the theorem's guard holds (0 < count < nobs, cells in "
+               "[2^-200, 2^200]); within 1e-9 everywhere"]
 
 RATE_NAMES = ["tpr", "fnr", "tnr", "fpr", "ppv", "fdr", "npv", "for_", "topr", "tonr", "accuracy", "error_rate"]
 COUNT_NAMES = ["p", "n", "top", "ton", "pop"]
@@ -217,7 +230,7 @@ def build(inp) -> Case:
     eps = Fraction(0) if inp["kind"] in ("int",) else Fraction(1, 10**9)
     scale = max([1.0] + [abs(x) for m in inp["mats"] for x in m])
     epsd = eps * Fraction(scale) * 4
-    lines = []
+    lines, blines = [], []
     flat = arr.reshape(-1, 2, 2)
     nmat = flat.shape[0]
     for k in range(nmat):
@@ -235,6 +248,15 @@ def build(inp) -> Case:
         lines.append(line("ci", m=ql(m), eps=q(Fraction(1, 10**9) * Fraction(max(1.0, hw)) ** 2), z1=q(zs["1"]), z2=q(zs["2"]),
                           ci1="[" + ",".join(_orat(float(x)) for x in c1) + "]",
                           ci2="[" + ",".join(_orat(float(x)) for x in c2) + "]"))
+        # third line per matrix: the theorem-derived bound for the eight interval limits (op `cibound`); the square roots of
+        # the four exact radicands p(1-p)/n are supplied as rationals accurate to 2^-70 and checked by the driver
+        fm = [Fraction(x) for x in (float(y) if not isinstance(y, (int, np.integer)) else int(y) for y in m)]
+        sig = []
+        for c_, n_ in ((fm[0], fm[0] + fm[1]), (fm[3], fm[2] + fm[3]), (fm[2], fm[2] + fm[3]), (fm[1], fm[0] + fm[1])):
+            v_ = (c_ / n_) * (1 - c_ / n_) / n_ if n_ != 0 else Fraction(0)
+            sig.append(_rsqrt(v_) if v_ > 0 else Fraction(0))
+        blines.append(line("cibound", m=ql(m), z1=q(zs["1"]), z2=q(zs["2"]), u=q(U53), kap=q(Fraction(1, 2 ** CI_KAPPA_BITS)),
+                           sig=ql(sig)))
     inp["_evals"] = max(1, nmat) * (len(RATE_NAMES) + len(COUNT_NAMES) + 8)
     tags = [inp["kind"] + ("/" + str(arr.dtype) if inp.get("narrow") else ""), f"ndim={len(shape)}", inp["via"]] + (["errstate=raise"] if inp.get("errstate") else []) + (
         ["history"] if inp.get("history") else [])
@@ -245,6 +267,37 @@ def build(inp) -> Case:
 
     def judge(outs):
         iss = []
+        # --- float-bound: the eight limits of every matrix against the exact model's p -+ z sigma, bound ciEps (SA.ci_fl_error)
+        worst, nchk = None, 0
+        for k in range(nmat):
+            o3 = outs[2 * nmat + k]
+            cells_ = [float(x) for x in flat[k].reshape(-1)]
+            if "err" in o3 or not fl_in_range(cells_) or not fl_in_range([zs["1"], zs["2"]]):
+                continue
+            f_ok = common.plist(o3["ok"])
+            for j, nm in enumerate(CI_NAMES):
+                if f_ok[j] != "1":
+                    continue  # zero class total, p in {0, 1} (no positive sigma) or a divisor too close to 0
+                for key in ("1", "2"):
+                    lo, hi = [float(x) for x in cis[(key, nm)].reshape(-1, 2)[k]]
+                    for side, got in (("lo", lo), ("hi", hi)):
+                        if math.isnan(got) or math.isinf(got):
+                            iss.append(Issue("DISAGREE", "float-bound", f"{nm}({inp['mats'][k]}) {side}={got} where the model's "
+                                             f"limit is finite", f"metrics/{nm}/float-bound"))
+                            continue
+                        want = common.pfracs(o3[side + key])[j]
+                        bound = common.pfracs(o3["e" + side + key])[j]
+                        d = abs(Fraction(got) - want)
+                        ratio = d / bound if bound > 0 else (Fraction(0) if d == 0 else Fraction(10**6))
+                        worst = ratio if worst is None or ratio > worst else worst
+                        nchk += 1
+                        if d > FLBOUND_SLACK * bound:
+                            iss.append(Issue("DISAGREE", "float-bound", f"{nm}({inp['mats'][k]}, alpha={inp['alpha' + key]}) {side} "
+                                             f"impl={got} model={float(want)} differ by {float(d):.3e} > {FLBOUND_SLACK} x "
+                                             f"{float(bound):.3e} (theorem bound ciEps; ratio {float(ratio):.2f})",
+                                             f"metrics/{nm}/float-bound"))
+        case.tags = case.tags + ("float-bound ratio " + fl_bucket(worst),)
+        case.flratio, case.flchecked = worst, nchk
         for k in range(nmat):
             o1, o2 = outs[2 * k], outs[2 * k + 1]
             mr = common.pfracs(o1["rates"])
@@ -277,7 +330,9 @@ def build(inp) -> Case:
                         break
         return iss
 
-    return Case(ID, inp, lines, judge, tuple(tags), 0, pre)
+    case = Case(ID, inp, lines + blines, None, tuple(tags), 0, pre)
+    case.judge = judge
+    return case
 
 
 def shrink_candidates(inp):
